@@ -126,7 +126,13 @@ def setup_recursive_safe_function(
         cls = tp.args if is_generic else tp.origin
         recursion_guard = extras['recursion_guard']
 
-        if (_fn_name := recursion_guard.get(cls)) is None:
+        # Note: the arguments of a generic type can be values rather than
+        # types (`Literal`), and equal values are not the same arguments:
+        # `(1,) == (True,)`, yet `Literal[1]` is not `Literal[True]`. So
+        # identify a generic type by its arguments *and* their types.
+        key = tuple([(a, type(a)) for a in cls]) if is_generic else cls
+
+        if (_fn_name := recursion_guard.get(key)) is None:
             cls_name = extras['cls_name']
             tp_name = func.__name__.split('_', 2)[-1]
 
@@ -148,7 +154,7 @@ def setup_recursive_safe_function(
             if not is_generic and _fn_name in recursion_guard.values():
                 _fn_name = f'{_fn_name}{len(recursion_guard)}'
 
-            recursion_guard[cls] = _fn_name
+            recursion_guard[key] = _fn_name
 
             # Retrieve the main FunctionBuilder
             main_fn_gen = extras['fn_gen']
